@@ -344,7 +344,7 @@ class ItFlatMap(It):
             o = self.inner.next(it)
             if o.variant == 0:
                 return o
-            self.cur = to_iter(it, it.call_value(self.f, [o.fields[0]]))
+            self.cur = to_iter(it, it.call_value(self.f, [o.fields[0]]) if self.f is not None else o.fields[0])
 
 
 def to_iter(it, v):
@@ -475,7 +475,7 @@ def register_all(M):
             return Str(elems_of(t.fields[0]))
         if isinstance(t, Opaque) and t.tag in ("PathBuf", "bytes"):
             return t
-        if isinstance(t, Agg) and t.kind == "adt:RefMut":
+        if isinstance(t, Agg) and t.kind in ("adt:RefMut", "adt:CellRef"):
             return t.fields[0]
         if isinstance(t, Box):
             return Ref(t.cell, 0)
@@ -1076,6 +1076,10 @@ def register_all(M):
     def m_flat_map(it, args, callee):
         return ItFlatMap(to_iter(it, args[0]), args[1])
 
+    @reg("Iterator::flatten")
+    def m_flatten(it, args, callee):
+        return ItFlatMap(to_iter(it, args[0]), None)
+
     @reg("Iterator::count")
     def m_count(it, args, callee):
         n = 0
@@ -1656,6 +1660,19 @@ def register_all(M):
                 "is_ascii_punctuation": [x for x in range(0x21, 0x7f) if not chr(x).isalnum()]}[name]
         return m_str_contains(it, [Str(sets), c], "str::contains::<char>")
 
+    # ----------------------------------------------------------------- dyn Method dispatch (RitiContext forwards through Box<dyn Method>)
+    def dyn_method(name):
+        def f(it, args, callee):
+            obj = deref(args[0])
+            if not (isinstance(obj, Agg) and obj.kind.startswith("adt:")):
+                raise Unsupported("dyn Method call on %r" % (obj,))
+            fn = it.p.find_trait_fn(obj.kind[4:], "Method", name)
+            return it.call_function(fn, args)
+        f.__name__ = "dyn_Method_" + name
+        return f
+    for _n in ("get_suggestion", "candidate_committed", "update_engine", "ongoing_input_session", "finish_input_session", "backspace_event"):
+        reg("Method::" + _n)(dyn_method(_n))
+
     # ----------------------------------------------------------------- pointers / boxes / cells
     @reg("Box::new")
     def m_box_new(it, args, callee):
@@ -1665,14 +1682,27 @@ def register_all(M):
     def m_refcell_new(it, args, callee):
         return Agg("adt:RefCell", None, [args[0], 0])
 
-    @reg("RefCell::borrow_mut", "RefCell::borrow")
+    @reg("RefCell::borrow_mut")
+    def m_refcell_borrow_mut(it, args, callee):
+        c = deref(args[0])
+        if c.fields[1] != 0:
+            raise PanicPath("RefCell already borrowed")
+        c.fields[1] = -1
+        return Agg("adt:RefMut", None, [Ref(c.fields, 0, True), c])
+
+    @reg("RefCell::borrow")
     def m_refcell_borrow(it, args, callee):
         c = deref(args[0])
-        return Agg("adt:RefMut", None, [Ref(c.fields, 0, True)])
+        if c.fields[1] == -1:
+            raise PanicPath("RefCell already mutably borrowed")
+        c.fields[1] += 1
+        return Agg("adt:CellRef", None, [Ref(c.fields, 0), c])
 
     @reg("RefCell::replace")
     def m_refcell_replace(it, args, callee):
         c = deref(args[0])
+        if c.fields[1] != 0:
+            raise PanicPath("RefCell already borrowed")
         old = c.fields[0]
         c.fields[0] = args[1]
         return old
